@@ -132,7 +132,7 @@ def work(spec):
         if v is None:
             continue
         items.append((text, v))
-    cases = [{"mode": "compile", "main": "main", "files": {"main": t}, "opts": [("program", 0)]} for t, _ in items]
+    cases = [{"mode": "compile", "main": "main", "files": {"main": t}, "opts": [("program", 0), ("stages", 1 if i % 5 == 0 else 0)]} for i, (t, v) in enumerate(items)]
     outs, _ = common.run_batch(cases)
     for (text, (ok, reason, excluded, consumed)), case, r_ in zip(items, cases, outs):
         part["evals"] += 1
@@ -150,6 +150,14 @@ def work(spec):
                     [e[1][:80] for e in r_["errors"][:3]], text),
                 "case": common.slim_case(case)})
             continue
+        if r_.get("stages", [1, 1]) != [1, 1]:
+            part["violations"].append({"signature": "verdict-depends-on-call-history:" + ("second-gen-differs" if r_["stages"][0] == 0 else "parse+gen-differs-from-compile"),
+                                       "message": "the same text through parse() + gen(): %s\n%s" % (
+                                           "generating code twice from one tree gives two different results" if r_["stages"][0] == 0
+                                           else "the result differs from compile()'s", text), "case": common.slim_case(case)})
+            continue
+        if "stages" in r_:
+            part["stats"]["parse-once-generate-twice-agree"] += 1
         if not r_["ok"] and not r_["errors"]:
             part["violations"].append({"signature": "rejected-without-error", "message": "marked incorrect with an empty error list\n" + text,
                                        "case": common.slim_case(case)})
